@@ -155,3 +155,40 @@ def q_ufb(ex, args, kwargs):
 
 _S.q_ufb = q_ufb
 _S.SPEC_FORMS[_C.ufb] = q_ufb
+
+
+# ---------------------------------------------------------------------------
+# performance work-around (no semantic content): CPython 3.11/3.12 keep interpreter frames in 16 KB
+# "data stack chunks" that are mmap'ed / munmap'ed whenever the frame stack crosses a chunk boundary.
+# The engine is a deep recursive interpreter; inside a pool worker its hot loops happened to sit exactly
+# on such a boundary (58 000 mmap/munmap pairs and as many page faults per lemma: 30 s instead of 1 s).
+# Running the verification below one frame with a very large (unused) evaluation stack makes CPython allocate one big
+# chunk whose spare room holds all deeper frames, so no chunk is allocated or freed during the run.
+# ---------------------------------------------------------------------------
+def _fat_frame_runner(slots=150_000):
+    def _fat(fn, args, kwargs):
+        return fn(*args, **kwargs)
+
+    # an over-sized evaluation stack is harmless; it only enlarges the frame
+    _fat.__code__ = _fat.__code__.replace(co_stacksize=slots)
+    return _fat
+
+
+_FAT = None
+
+
+def _in_fat_frame(fn):
+    def wrapper(*args, **kwargs):
+        global _FAT
+        if _FAT is None:
+            _FAT = _fat_frame_runner()
+        return _FAT(fn, args, kwargs)
+
+    wrapper.__wrapped__ = fn
+    return wrapper
+
+
+from . import vcgen as _V  # noqa: E402
+
+if not hasattr(_V.verify, '__wrapped__'):
+    _V.verify = _in_fat_frame(_V.verify)
